@@ -362,8 +362,40 @@ pub fn run(tier: &str) -> i32 {
     for r in results {
         rep.merge(r);
     }
+    // "validation only gates" over a large program corpus (every declaration atom of C01, role programs, the
+    // several-of-everything shader): text with validation {all, empty caps where naga accepts} must equal text without
+    let corpus = crate::c18::corpus();
+    let cres = par_map(&corpus, |(key, src, cfg)| {
+        let off = generate(src, cfg);
+        let mut diffs = vec![];
+        for (vname, v) in [("all", Validate::All), ("empty", Validate::Empty)] {
+            let on = generate(src, &Config { validate: v, ..*cfg });
+            let rejected = matches!(&on, Outcome::Err(x, _) if x == "ValidationError");
+            if rejected {
+                // the validator's verdict with that capability set, called directly
+                let caps = if v == Validate::All { naga::valid::Capabilities::all() } else { naga::valid::Capabilities::empty() };
+                let direct = naga::front::wgsl::parse_str(src).ok().map(|m| naga::valid::Validator::new(naga::valid::ValidationFlags::all(), caps).validate(&m).is_err());
+                if direct != Some(true) {
+                    diffs.push(format!("{vname}: ValidationError although naga's validator accepts"));
+                }
+                continue;
+            }
+            if on != off {
+                diffs.push(format!("{vname}: {} with validation vs {} without", on.class(), off.class()));
+            }
+        }
+        (key.clone(), src.clone(), cfg.key(), diffs)
+    });
+    for (key, src, cfgk, diffs) in cres {
+        rep.states += 1;
+        rep.evaluations += 3;
+        rep.count("corpus programs compared with validation on/off");
+        for d in diffs {
+            rep.violation(format!("corpus|{key}"), format!("enabling validation changed the outcome of a passing source ({d})"), json!({"wgsl": src, "config": cfgk}));
+        }
+    }
     rep.traces_validated = rep.evaluations;
-    rep.rule = format!("{} base shaders: every truncation, single-character deletion, adjacent swap and 10 injects (NUL, BOM, RLO, quote, comment opener, @, }}, emoji, CR, digit) at every position for {} of them; every token deletion / duplication / adjacent swap for all; 30 parsable-but-invalid modules and 7 valid modules the generator itself rejects (duplicate slots not used together, non-dense groups, unsupported globals){}; each x 6 validation settings (off, all, empty, 3 capability subsets). Oracle: naga called directly (parse error <=> ParseError with naga's message and rendering; validator error <=> ValidationError; no panic; passing sources give the same outcome with validation on and off). Non-trivial = a source that passed and was generated.", BASES.len(), "all 8", if thorough { "; all double edits {delete, 3 injects}^2 of the smallest base" } else { "" });
+    rep.rule = format!("{} base shaders: every truncation, single-character deletion, adjacent swap and 10 injects (NUL, BOM, RLO, quote, comment opener, @, }}, emoji, CR, digit) at every position for {} of them; every token deletion / duplication / adjacent swap for all; 30 parsable-but-invalid modules and 7 valid modules the generator itself rejects (duplicate slots not used together, non-dense groups, unsupported globals){}; each x 6 validation settings (off, all, empty, 3 capability subsets). Oracle: naga called directly (parse error <=> ParseError with naga's message and rendering; validator error <=> ValidationError; no panic; passing sources give the same outcome with validation on and off). Plus ~1100 corpus programs (C01's atoms etc.) generated with validation off / all / empty capabilities and compared. Non-trivial = a source that passed and was generated.", BASES.len(), "all 8", if thorough { "; all double edits {delete, 3 injects}^2 of the smallest base" } else { "" });
     if rep.outcomes.len() < 3 {
         machinery("C17: fewer than 3 outcome classes");
     }
